@@ -79,6 +79,10 @@ fn hand_table() -> Vec<(&'static str, String)> {
     for t in ["*a", "k: *a", "*a : v", "[*a]", "{*a : v}", "- &b x\n- *a", "&a x: *b"] {
         v.push(("alias without anchor", format!("{t}\n")));
     }
+    // anchors end with their document (checked with keep_tags off and on: the option keeps handles only)
+    for t in ["--- &a x\n--- *a", "&a x\n...\n*a", "- &a x\n---\n- *a", "&a k: v\n---\n*a : w", "--- &a [x]\n--- {k: *a}", "&a x\n---\ny\n---\n*a"] {
+        v.push(("alias without anchor", format!("{t}\n")));
+    }
     v
 }
 
@@ -87,7 +91,8 @@ pub fn replay(case: &Value) -> Result<Acc, String> {
     if case["kind"] == "suite" {
         acc.evals += 1;
         let t = case["text"].as_str().unwrap_or("");
-        if let Some(o) = accepted(t) {
+        let kept = if case["name"].as_str().unwrap_or("") == "table: alias without anchor" { observe_keep_tags(t, Api::Iter).ok().filter(|o| o.err.is_none()).map(|o| format!("keep_tags(true) accepted: {}", o.kinds())) } else { None };
+        if let Some(o) = accepted(t).or(kept) {
             acc.violation(Violation { key: format!("suite-error-case-accepted {}", case["name"].as_str().unwrap_or("")), expected: "an error".into(), observed: o, case: case.clone(), size: t.len() });
         }
         return Ok(acc);
@@ -153,7 +158,8 @@ pub fn check(tier: Tier) -> i32 {
     let (acc, done) = par_blocks(table.len() as u64, &budget, |b, acc| {
         let (clause, text) = &table[b as usize];
         acc.evals += 1;
-        if let Some(o) = accepted(text) {
+        let kept = if *clause == "alias without anchor" { observe_keep_tags(text, Api::Iter).ok().filter(|o| o.err.is_none()).map(|o| format!("keep_tags(true) accepted: {}", o.kinds())) } else { None };
+        if let Some(o) = accepted(text).or(kept) {
             acc.violation(Violation { key: format!("table-case-accepted clause={clause}"), expected: "an error".into(), observed: o, case: json!({"kind": "suite", "name": format!("table: {clause}"), "text": text}), size: text.len() });
         }
     });
